@@ -46,7 +46,7 @@ def interp_lin_numba(x11, x12, P, Pmin, Pmax):
     scale = (P - Pmin)/diff
     out = np.zeros_like(x11)
     for n in range(N):
-        out[n] = (x11[n] - scale*(x11[n]-x12[n]))
+        out[n] = (1.0 - scale)*x11[n] + scale*x12[n]
 
     return out
 
@@ -93,7 +93,10 @@ def interp_exp_and_lin_numpy(x11, x12, x21, x22, T, Tmin, Tmax, P, Pmin, Pmax):
         
         """
 
-        return ((x11*(Pmax - Pmin) - (P - Pmin)*(x11 - x21))*np.exp(Tmax*(-T + Tmin)*np.log((x11*(Pmax - Pmin) - (P - Pmin)*(x11 - x21))/(x12*(Pmax - Pmin) - (P - Pmin)*(x12 - x22)))/(T*(Tmax - Tmin)))/(Pmax - Pmin))
+        Pscale = (P - Pmin)/(Pmax - Pmin)
+        low = (1.0 - Pscale)*x11 + Pscale*x21
+        high = (1.0 - Pscale)*x12 + Pscale*x22
+        return low*np.exp(Tmax*(-T + Tmin)*np.log(low/high)/(T*(Tmax - Tmin)))
 
 
 def interp_exp_numpy(x11,x12,T,Tmin,Tmax):
@@ -128,7 +131,7 @@ def intepr_bilin_numba_II(x11, x12, x21, x22, T, Tmin, Tmax, P, Pmin, Pmax):
     
     for n in range(N):
 
-        out[n] = x11[n] - Pscale*(x11[n] - x21[n]) - Pscale * Tscale*(x21[n] - x11[n] + x12[n] - x22[n] ) - Tscale*(x11[n]-x12[n])  
+        out[n] = (1.0 - Pscale)*((1.0 - Tscale)*x11[n] + Tscale*x12[n]) + Pscale*((1.0 - Tscale)*x21[n] + Tscale*x22[n])
 
     return out
     #(x11*(Pmax - Pmin)*(Tmax - Tmin) - (P - Pmin)*(Tmax - Tmin)*(x11 - x21) - (T - Tmin)*(-(P - Pmin)*(x11 - x21) + (P - Pmin)*(x12 - x22) + (Pmax - Pmin)*(x11 - x12)))/((Pmax - Pmin)*(Tmax - Tmin))
